@@ -39,7 +39,8 @@ def nofit_events(maxres, rng, per_r):
     out = []
     for r in range(2, maxres + 1):
         n = r - 1
-        cands = [4 ** n, 4 ** n + 1, 2 * 4 ** n, 4 ** (n + 1) - 1, 4 ** n + rng.randrange(4 ** n), 4 ** (n + 2)]
+        cands = [4 ** n, 64 * 4 ** n + rng.randrange(4 ** n), 4 ** n + rng.randrange(4 ** n), 4 ** n + 1, 2 * 4 ** n, 4 ** (n + 1) - 1,
+                 4 ** (n + 2), rng.randrange(1, 1 << 20) * 64 * 4 ** n + rng.randrange(4 ** n), (1 << 64) * 4 ** n, (1 << 64) + rng.randrange(4 ** n)]
         for S in cands[:per_r]:
             f, s = rng.randrange(len(org.origins)), rng.randrange(5)
             e = {"ev": "nofit", "r": r, "f": f, "s": s, "S": hex(S), "raised": False, "got": ""}
@@ -64,14 +65,25 @@ def nofit_events(maxres, rng, per_r):
 
 
 def count_events(upto, maxres):
+    """two rounds: between them the caller scribbles on every list the API handed out (a
+    caller owns the lists it gets; later enumerations must not be affected)"""
     ser, org, utils = cells.api()
     from a5.core import cell_info
     out = []
-    for r in range(0, upto + 1):
-        ids = ser.cell_to_children(0, r)
-        allres = all(ser.get_resolution(i) == r for i in ids)
-        out.append({"ev": "count", "r": r, "total": len(ids), "distinct": len(set(ids)),
-                    "num": core.me_pair(cell_info.get_num_cells(r)), "allres": allres})
+    for rnd in (1, 2):
+        handed = []
+        for r in range(0, upto + 1):
+            ids = ser.get_res0_cells() if r == 0 and rnd == 2 else ser.cell_to_children(0, r)
+            handed.append(ids)
+            allres = all(ser.get_resolution(i) == r for i in ids)
+            out.append({"ev": "count", "r": r, "round": rnd, "total": len(ids), "distinct": len(set(ids)),
+                        "num": core.me_pair(cell_info.get_num_cells(r)), "allres": allres})
+        handed.append(ser.get_res0_cells())
+        for lst in handed:
+            if isinstance(lst, list):
+                lst.reverse()
+                del lst[::2]
+        upto = min(upto, 3)
     for r in range(-1, maxres + 1):
         out.append({"ev": "numcells", "r": r, "num": core.me_pair(cell_info.get_num_cells(r))})
     return out
@@ -126,7 +138,7 @@ def run(v):
     n_b1 = len(events)
     for c in pattern_cells(p, rng, 40 if quick else 400):
         events.append(enc_event(c))
-    events += nofit_events(p["MaxRes"], rng, 3 if quick else 6)
+    events += nofit_events(p["MaxRes"], rng, 4 if quick else 10)
     events += count_events(6 if quick else 8, p["MaxRes"])
     tres, bad = core.judge(d, "Trace_Layout", events, timeout=2400)
     v.add_tlc("Trace_Layout", tres, {"events": len(events)})
